@@ -228,11 +228,28 @@ pub fn cb_bump(lex: &mut L) -> bool {
     true
 }
 pub fn cb_bool(lex: &mut L) -> bool { lex.slice().len() != 3 }
+pub fn cb_opt(lex: &mut L) -> Option<u8> { if lex.slice().len() == 2 { None } else { Some(first(lex)) } }
+pub fn cb_filter_res(lex: &mut L) -> FilterResult<u8, u8> {
+    match lex.slice().len() { 1 => FilterResult::Skip, 2 => FilterResult::Emit(1), _ => FilterResult::Error(4) }
+}
 ''', skips=[R(r'\n', cb='cb_newline', cb_kind='skip_unit', cb_fn='cb_newline'),
             R('e|f', cb='cb_skip_result', cb_kind='skip_result', cb_fn='cb_skip_result')], variants=[
         Var('W', [R('w+', cb='cb_bump', cb_kind='bool', cb_fn='cb_bump')]),
         Var('A', [R('a+', cb='cb_bool', cb_kind='bool', cb_fn='cb_bool')]),
         Var('Plus', [T('+')])], tags=('cb', 'cb_err', 'no_consumption_rule', 'quick')))
+    # error callback together with callbacks that can yield the *default* error (Option::None, false) or Error(e)
+    D.append(Def('cb_err_opt', error='MyErr', error_cb='cb_err', prelude=CB_PRELUDE + '''
+pub fn cb_err(lex: &mut L) -> MyErr { MyErr::Bad(lex.slice().len() as u8) }
+pub fn cb_opt(lex: &mut L) -> Option<u8> { if lex.slice().len() == 2 { None } else { Some(first(lex)) } }
+pub fn cb_bool(lex: &mut L) -> bool { lex.slice().len() != 3 }
+pub fn cb_filter_res(lex: &mut L) -> FilterResult<u8, u8> {
+    match lex.slice().len() { 1 => FilterResult::Skip, 2 => FilterResult::Emit(1), _ => FilterResult::Error(4) }
+}
+''', variants=[
+        Var('O', [R('o+', cb='cb_opt', cb_kind='option', cb_fn='cb_opt')], field='u8'),
+        Var('B', [R('b+', cb='cb_bool', cb_kind='bool', cb_fn='cb_bool')]),
+        Var('G', [R('g+', cb='cb_filter_res', cb_kind='filter_result', cb_fn='cb_filter_res')], field='u8'),
+        Var('P', [T('p')])], tags=('cb', 'cb_err', 'quick')))
     return D
 
 
